@@ -559,10 +559,10 @@ func c03(c *Ctx) {
 	if st, err := os.Stat("/dev/shm"); err == nil && st.IsDir() && os.Getenv("TMPDIR") == "" {
 		os.Setenv("TMPDIR", "/dev/shm")
 	}
-	// C03_FIXED=1: the tree under test carries the proposed repair of VerifyNewConfirms; tell the model
-	// driver to run `verifyNewConfirmsFixed` (used only with VERIF_REPO=<scratch copy with the diff>).
-	if os.Getenv("C03_FIXED") != "" {
-		c.Op("mode fixed", "ok")
+	// C03_ASIS=1 (debugging only, with VERIF_REPO=<tree where the fix commit d34eb0a is reverted>): tell the
+	// model driver to run the old bytes-only verifier instead of the live one.
+	if os.Getenv("C03_ASIS") != "" {
+		c.Op("mode asis", "ok")
 	}
 	// ---- two_thirds_arith: the float expression of TwoThirdDeputyCount / IsConfirmEnough, all n < 65536 ----
 	for n := 0; n < 65536; n++ {
@@ -574,7 +574,8 @@ func c03(c *Ctx) {
 	}
 	c.Count("tt-sweep")
 
-	// ---- the minimal witness, both delivery forms (3 deputies, one signer) ----
+	// ---- regression: the witness of the defect fixed by /repo commit d34eb0a, both delivery forms
+	// (3 deputies; the miner's re-encoded header signature offered as a confirmation must NOT count) ----
 	{
 		s := c03newScn(c, 3, 3)
 		g := s.blks[0]
